@@ -56,28 +56,36 @@ def popBack (m : M2) (l : Hd) : M2 × Hd × Option Nat :=
     (r.1, r.2, some n)
   else (m, l, none)
 
+/-- what a visit function that removes the visited element does: unlink it
+(`cstl_dlist_erase(l, c)`) and then do anything to it — it owns the element
+now (`poison` overwrites both of its links, as a free or a reuse would) -/
+def eraseP (poison : Nat → Nat) (m : M2) (l : Hd) (c : Nat) : M2 × Hd :=
+  let r := erase m l c
+  ({ nx := upd r.1.nx c (poison c), pv := upd r.1.pv c (poison c) }, r.2)
+
 /-- `cstl_dlist_foreach`: `c = next(h), n = next(c)`; while `res == 0 && c != h`:
 visit `c`; `c = n, n = next(c)`.  The visit function returns its result and
-whether it unlinked the visited element (`cstl_dlist_erase(l, c)`), which the
-loop tolerates because the successor was saved first. -/
-def foreachLoop (fwd : Bool) (visit : Nat → Nat → Int × Bool) :
+whether it removed the visited element (`eraseP`), which the loop tolerates
+because the successor was saved first. -/
+def foreachLoop (poison : Nat → Nat) (fwd : Bool) (visit : Nat → Nat → Int × Bool) :
     Nat → M2 → Hd → Nat → Nat → Nat → List Nat → M2 × Hd × List Nat × Int
   | 0, m, l, _, _, _, acc => (m, l, acc.reverse, 0)
   | fuel + 1, m, l, c, n, k, acc =>
     if c = l.h then (m, l, acc.reverse, 0)
     else
       let v := visit k c
-      let ml := if v.2 then erase m l c else (m, l)
+      let ml := if v.2 then eraseP poison m l c else (m, l)
       if v.1 ≠ 0 then (ml.1, ml.2, (c :: acc).reverse, v.1)
       else
         let c' := n
         let n' := if fwd then ml.1.nx c' else ml.1.pv c'
-        foreachLoop fwd visit fuel ml.1 ml.2 c' n' (k + 1) (c :: acc)
+        foreachLoop poison fwd visit fuel ml.1 ml.2 c' n' (k + 1) (c :: acc)
 
-def foreach (m : M2) (l : Hd) (fwd : Bool) (visit : Nat → Nat → Int × Bool) : M2 × Hd × List Nat × Int :=
+def foreach (m : M2) (l : Hd) (fwd : Bool) (visit : Nat → Nat → Int × Bool)
+    (poison : Nat → Nat := fun _ => 0) : M2 × Hd × List Nat × Int :=
   let c := if fwd then m.nx l.h else m.pv l.h
   let n := if fwd then m.nx c else m.pv c
-  foreachLoop fwd visit (l.size + 1) m l c n 0 []
+  foreachLoop poison fwd visit (l.size + 1) m l c n 0 []
 
 /-- `cstl_dlist_find`: first element (in the direction) whose key compares equal -/
 def find (m : M2) (l : Hd) (fwd : Bool) (key : Nat → Int) (probe : Int) : Option Nat :=
